@@ -129,3 +129,20 @@ func flatE(es []ref.E) []*big.Int {
 	}
 	return o
 }
+
+// expectOutputsMod compares outputs with the reference modulo the Goldilocks prime (NoReduce variants).
+func expectOutputsMod(name string, mode eng.Mode, in []*big.Int, fn gad.Fn, want []*big.Int) caseResult {
+	res, out := gad.Run(eng.Options{Mode: mode}, in, fn)
+	if res.Outcome != eng.Accept {
+		return caseResult{Viol: name + "/not-accepted", Desc: fmt.Sprintf("%s%v (%s flavour) with honest hints: %s", name, in, mode, fmtRes(res))}
+	}
+	if len(out) != len(want) {
+		return caseResult{Viol: name + "/arity", Desc: fmt.Sprintf("%s returned %d values, reference %d", name, len(out), len(want))}
+	}
+	for i := range want {
+		if new(big.Int).Mod(out[i], bigP).Cmp(want[i]) != 0 {
+			return caseResult{Viol: name + "/value", Desc: fmt.Sprintf("%s%v: output[%d] = %s is not congruent to %s mod p", name, in, i, out[i], want[i])}
+		}
+	}
+	return caseResult{}
+}
